@@ -219,7 +219,7 @@ def address_alphabet(limit=160):
     return list(dict.fromkeys(a))[:limit]
 
 
-def interleaved_ok(f, arg_tuples, fb_list=()):
+def interleaved_ok(f, arg_tuples, fb_list=(), bound=1):
     """engine.interleave over all ordered pairs of the given argument tuples (and, as the interrupting call, each (fb, args)
     of fb_list): returns a list of (args_a, name_b, k) for schedules in which either call's answer differs from the answer
     it gives alone; plus the number of schedules executed."""
@@ -230,10 +230,10 @@ def interleaved_ok(f, arg_tuples, fb_list=()):
         inter = [(f, b, iso[j], getattr(f, "__name__", "f")) for j, b in enumerate(arg_tuples) if j != i]
         inter += [(fb, b, repr(call(fb, *b)), getattr(fb, "__name__", "g")) for fb, b in fb_list]
         for fb, b, iso_b, nm in inter:
-            res = interleave.explore(f, a, fb, b, loader.SRC)
+            res = interleave.explore(f, a, fb, b, loader.SRC, bound=bound)
             n += len(res["schedules"])
             for k, ra, rb in res["schedules"]:
-                if repr(ra) != iso[i] or repr(rb) != iso_b:
+                if repr(ra) != iso[i] or (repr(rb) != iso_b if bound == 1 else any(repr(x) != iso_b for x in rb)):
                     bad.append((a, nm, k))
                     break
     return bad, n
